@@ -176,7 +176,11 @@ NOT_YET = {}
 # document-level theorems added in the last third of the build: appended to the level text / replacing notes that went stale
 EXTRA_TEXT = {
     'C01': ' Text level (C01Norm, partial): C01_normal_form_fixed_point / C01_normalForm_idem - for every text, parser and class of cells whose exported texts round-trip, replacing every '
-           'data cell by the exported text of its token keeps the spine paths and is idempotent; not proved: that deleting comment lines, all-null lines and unsupported columns keeps the paths.',
+           'data cell by the exported text of its token keeps the spine paths and is idempotent; C01Text: C01_export_of_normal_form / C01_dumps_of_normal_form - the export of the normal form '
+           'is the export of the text (both statements are also evaluated on the real library with the Lean normal form). Not proved: that deleting comment lines, all-null lines and '
+           'unsupported columns keeps the paths.',
+    'C04': ' Document level (C04Doc): C04_cell_view / C04_line_view - in the text specification of the export every line of a plain encoding is, cell by cell and with the same cells present, '
+           'the view (separators removed, null token when nothing remains) of the same line of its extended counterpart.',
     'C18': ' Inside documents (C18Doc): C18_cell_in_document - with the importer\'s cell parser instantiated by the spine-importer dispatch every data cell of a non-kern spine carries the token of '
            'the single rule for (its own header, its own text); C18_same_text_two_spines.',
     'C02': ' Document level (C02Tree, C02Tok): C02_tree - for every cell parser and every text without surplus cells a successful import has exactly the skeleton of an '
